@@ -8,7 +8,14 @@
      source is the table or a row that already belongs to the table goes to
      the end of the table's log; an error on a row that does not yet belong
      to it is pending, and the row's pending errors are appended, in their
-     order, when the row is attached.  Nil errors are nothing. *)
+     order, when the row is attached.  Nil errors are nothing.
+   another table: a row may also be added to another table.  That is no
+     event of this table: its log does not change, whether the row was still
+     outside it or already one of its rows, and it goes on growing as before.
+     AddRow's documentation says what the other table gets: "any existing
+     errors in the row become table errors" - what the row shows at that
+     moment.  From then on the row reports to the other table; what is raised
+     on it there is nothing this table owes. *)
 From Tab Require Export Model.ErrRoute.
 
 Fixpoint non_nil (l : list err) : list errid :=
@@ -96,6 +103,11 @@ Definition joins (ev : event) (r : nat) : bool :=
   end.
 Definition joined (h : list event) (r : nat) : bool := existsb (fun ev => joins ev r) h.
 
+(* the other table has taken the row *)
+Definition takes (ev : event) (r : nat) : bool :=
+  match ev with OtherAttachRow r' => r' =? r | _ => false end.
+Definition taken (h : list event) (r : nat) : bool := existsb (fun ev => takes ev r) h.
+
 Definition delivered (h : list event) (w : source) : bool :=
   match w with None => true | Some r => joined h r end.
 
@@ -115,16 +127,41 @@ End Scan.
 
 Definition expected_errors (h : list event) : list errid := concat (scan contribution [] h).
 
-(* a detached row's own log *)
-Definition expected_row (h : list event) (r : nat) : list errid :=
+(* what a row that reports to this table or to nobody shows: the table's log
+   once it belongs to the table, its own pending errors before *)
+Definition shown (h : list event) (r : nat) : list errid :=
   if joined h r then expected_errors h else raised_by h (Some r).
+
+(* the other table's log: what each row it takes shows at that moment, its own
+   errors, and whatever is raised on its rows afterwards *)
+Definition other_contribution (pre : list event) (ev : event) : list errid :=
+  match ev with
+  | OtherAttachRow r => shown pre r
+  | OtherAddError (Some e) => [e]
+  | OtherRowAddError _ (Some e) => [e]
+  | _ => []
+  end.
+Definition other_expected (h : list event) : list errid := concat (scan other_contribution [] h).
+
+(* the non-nil errors raised in the other table's world: on that table itself,
+   or on a row while it reports there *)
+Definition other_ids (h : list event) : list errid :=
+  flat_map (fun ev => match ev with
+                      | OtherAddError (Some e) | OtherRowAddError _ (Some e) => [e]
+                      | _ => []
+                      end) h.
+
+(* what a row itself shows *)
+Definition expected_row (h : list event) (r : nat) : list errid :=
+  if taken h r then other_expected h else shown h r.
 
 (* ---- the histories the theorem is about (DESIGN 13.1, 13.3) *)
 
 Definition mentions (ev : event) (r : nat) : bool :=
   match ev with
   | RowAddError r' _ | AttachRow r' | AddSeparator r' | AddHeaders r'
-  | RowAddOnSeparator r' _ | CallbackFails _ r' _ => r' =? r
+  | RowAddOnSeparator r' _ | CallbackFails _ r' _
+  | OtherAttachRow r' | OtherRowAddError r' _ => r' =? r
   | _ => false
   end.
 Definition fresh (h : list event) (r : nat) : bool := negb (existsb (fun ev => mentions ev r) h).
@@ -136,12 +173,31 @@ Definition is_sep (h : list event) (r : nat) : bool :=
 Definition site_detached_ok (s : site) : bool :=
   match s with SRowCellAdd => true | _ => negb (site_has_row s) end.
 
+(* the call sites that hand a callback's error to the row (or to whatever the
+   row's container is) and not to the table running the call: all of Row.Add,
+   the cell callbacks of AddRow, the column's cell callbacks of a render pass *)
+Definition site_via_row (s : site) : bool :=
+  match s with
+  | SRowCellAdd | SColCellRowAdd | STblCellRowAdd | SColCellAddRow | STblCellAddRow
+  | SColCellPre | SColCellPost => true
+  | _ => false
+  end.
+
+(* A row the other table has taken is never attached here afterwards, nor
+   taken twice; whatever is handed to such a row is the event
+   [OtherRowAddError] (and only that), so that a history says by itself which
+   errors this table owes.  A render pass of this table still visits a row of
+   its own that the other table took: what its callbacks hand to the table is
+   the table's as before. *)
 Definition wf_event (pre : list event) (ev : event) : bool :=
   match ev with
-  | AttachRow r => negb (joined pre r)                     (* attached at most once; never a separator or header *)
+  | RowAddError r _ => negb (taken pre r)
+  | AttachRow r => negb (joined pre r) && negb (taken pre r)   (* attached at most once; never a separator or header *)
   | AddSeparator r | AddHeaders r => fresh pre r           (* the table makes the row *)
-  | RowAddOnSeparator r _ => is_sep pre r
-  | CallbackFails s r _ => site_detached_ok s || joined pre r
+  | RowAddOnSeparator r _ => is_sep pre r && negb (taken pre r)
+  | CallbackFails s r _ => (site_detached_ok s || joined pre r) && negb (taken pre r && site_via_row s)
+  | OtherAttachRow r => negb (taken pre r)
+  | OtherRowAddError r _ => taken pre r
   | _ => true
   end.
 
